@@ -416,6 +416,21 @@ func (cs *Contracts) parseFile(path, src string) error {
 			if cur == nil {
 				return fmt.Errorf("%s:%d: loop outside func block", path, ln)
 			}
+			if j := strings.Index(rest, ": step "); j >= 0 && !strings.Contains(rest[:j], ": invariant ") {
+				key := strings.TrimSpace(rest[:j])
+				cl, err := parseClause(rest[j+len(": step "):])
+				if err != nil {
+					return fmt.Errorf("%s:%d: %v", path, ln, err)
+				}
+				if cur.Steps == nil {
+					cur.Steps = map[string][]*Clause{}
+				}
+				cur.Steps[key] = append(cur.Steps[key], cl)
+				if _, ok := cur.Loops[key]; !ok {
+					cur.Loops[key] = nil
+				}
+				break
+			}
 			if j := strings.Index(rest, ": decreases "); j >= 0 && !strings.Contains(rest[:j], ": invariant ") {
 				key := strings.TrimSpace(rest[:j])
 				cl, err := parseClause(rest[j+len(": decreases "):])
